@@ -60,6 +60,7 @@ type HistOpts struct {
 	Syncers    bool // persistent world: expose syncer coroutine steps
 	Faults     bool // inject sync / state-write failures
 	Shutdown   bool
+	DevFaults  bool // inject data-device write failures
 }
 
 // Hist drives a generated history over a world. It is shared by the
@@ -290,6 +291,19 @@ func (h *Hist) Actions() map[string]func(*rapid.T) {
 				w.HoldRead(hd, n)
 			}
 			w.Poll()
+		}
+	}
+	if h.Opt.DevFaults && w.St.Media.Data != nil {
+		a["devfault"] = func(t *rapid.T) {
+			d := w.St.Media.Data
+			k := rapid.IntRange(0, 3).Draw(t, "afterWrites")
+			c.Add("devfault", k)
+			h.FaultsInjected++
+			if d.FailWrite == nil {
+				d.FailWrite = map[int]error{}
+			}
+			d.FailWrite[d.Writes+k] = status.Error(codes.DataLoss, "injected device write failure")
+			w.logf("fault: data device write #%d from now fails", k)
 		}
 	}
 	if h.Opt.Composite {
